@@ -684,6 +684,22 @@ func genC04(rng *rand.Rand, typ int) ACase {
 
 // corrupt makes the header of a well-formed line invalid: truncation before ')' or a digit
 // replaced by a non-digit, a separator removed.
+// typeTokenSoup: record type tokens around the UNKNOWN[n] syntax and the name table.
+func typeTokenSoup(rng *rand.Rand) string {
+	fixed := []string{"UNKNOWN[", "UNKNOWN]", "UNKNOWN]1329[", "][", "]1[", "UNKNOWN[1", "UNKNOWN[]", "UNKNOWN[x]", "UNKNOWN[-1]", "UNKNOWN[65535]",
+		"UNKNOWN[65536]", "UNKNOWN[99999999999999999999]", "[1300]", "SYSCALL] [1300]", "unknown[5]", "Unknown[5]", "UNKNOWN[5]]", "UNKNOWN[[5]", "UNKNOWN[5][6]",
+		"UNKNOWN[ 5]", "UNKNOWN[+5]", "UNKNOWN[0x5]", "UNKNOWN[05]", "syscall", "Syscall", "SYSCALL", "", "[", "]", "[]", "UNKNOWN", "1300"}
+	if rng.Intn(2) == 0 {
+		return fixed[rng.Intn(len(fixed))]
+	}
+	alphabet := []string{"[", "]", "UNKNOWN", "unknown", "1", "1300", "65536", "-", " ", "SYSCALL", "\x00", "\xff"}
+	var b strings.Builder
+	for n := 1 + rng.Intn(5); n > 0; n-- {
+		b.WriteString(alphabet[rng.Intn(len(alphabet))])
+	}
+	return b.String()
+}
+
 func corruptC04(rng *rand.Rand, c ACase) ACase {
 	line := c.input()
 	// the body must not be able to repair the header: use one without ( ) . :
@@ -1089,7 +1105,9 @@ func auparseFamily(ctx *Ctx) error {
 			other := lines[ctx.Rng.Intn(len(lines))]
 			var c ACase
 			toModel := i%10 == 0
-			switch ctx.Rng.Intn(10) {
+			switch ctx.Rng.Intn(11) {
+			case 10: // the record type token itself is damaged: bracket forms of UNKNOWN[n], case, junk
+				c = mkACase("line", 0, "type="+typeTokenSoup(ctx.Rng)+" msg=audit(1.000:1): a=b")
 			case 0, 1, 2: // mutated whole line
 				c = mkACase("line", 0, mutate(ctx.Rng, base, other))
 			case 3: // arbitrary bytes
